@@ -23,6 +23,10 @@ def gen_run(tier, fault=False):
         # small / large total mass (power-of-two scale) and the library's default linear tolerances
         case["mass"]["amp_exp"] = draw(st.sampled_from([0, 0, 0, -14, -24, 10]))
         o["lso"] = draw(st.sampled_from(["tight", "tight", "default"]))
+        # storage type of the pixel data (photographs are integer-typed); used when it holds the values
+        case["mass"]["dtype"] = draw(st.sampled_from([None, None, None, None, "uint8", "uint16", "int32", "float32"]))
+        if not fault and draw(st.integers(0, 11)) == 0:
+            o["num_iter"] = 0  # only the initial Darcy flux: still mass-conserving, never converged
         if fault:
             o["tol"] = draw(st.sampled_from([None, 1e-12, 1e-12, 1e-3]))
             case["fault_point"] = draw(st.sampled_from(["linear_solve", "linear_solve", "face_weight",
@@ -34,6 +38,8 @@ def gen_run(tier, fault=False):
             case["fault_at"] = draw(st.integers(1, hi))
             case["fault_exc"] = draw(st.sampled_from(["runtime", "runtime", "memory", "custom", "floating",
                                                       "linalg", "type"]))
+            # a failure that persists (every later call of the step fails as well)
+            case["fault_sticky"] = case["fault_point"] == "linear_solve" and draw(st.sampled_from([False, False, True]))
         return case
 
     return strat()
@@ -77,11 +83,12 @@ def _tags(case, a, b):
             "aa": bool(o.get("aa_depth"))}
 
 
-def _run(case, fault_at=None, fault_point="linear_solve", fault_exc="runtime"):
+def _run(case, fault_at=None, fault_point="linear_solve", fault_exc="runtime", sticky=False):
     grid, o = case["grid"], case["opt"]
     a, b = wass.make_masses(grid["shape"], case["mass"])
     tags = _tags(case, a, b)
-    i1, i2 = wass.make_images(grid, a, b)
+    tags["dtype"] = str(wass.storage_dtype(a, b, case["mass"].get("dtype")))
+    i1, i2 = wass.make_images(grid, a, b, case["mass"].get("dtype"))
     wimg = wass.make_weight(grid, case.get("weight"))
     with warnings.catch_warnings():
         warnings.simplefilter("ignore")
@@ -90,8 +97,9 @@ def _run(case, fault_at=None, fault_point="linear_solve", fault_exc="runtime"):
             w1, g = wass.make_solver(grid, o, wimg)
             cap = wass.capture_solve(w1)
             wass.watch_mobility(w1, tags)
-            st_ = wass.inject_fault(w1, fault_at, fault_point, fault_exc) if fault_at is not None else None
+            st_ = wass.inject_fault(w1, fault_at, fault_point, fault_exc, sticky) if fault_at is not None else None
             d, info = w1(i1, i2)
+            cap["images"] = (i1, i2)
         except tuple(c for c in wass.FAULT_TYPES.values() if c) + (wass.InjectedFault,) as e:
             if fault_at is None or "injected failure" not in str(e):
                 e.vf_tags = tags
@@ -117,7 +125,9 @@ def _labels(case, extra=()):
     return (f"dim{len(g['shape'])}", o["method"], o["l1_mode"], o["mobility_mode"],
             f"{o['formulation']}/{o['linear_solver']}", f"mass-{case['mass']['kind']}",
             "aa" if o["aa_depth"] else "no-aa", "weighted" if case.get("weight") else "unweighted",
-            "thin" if 1 in g["shape"] or len(g["shape"]) == 1 else "thick") + tuple(extra)
+            "thin" if 1 in g["shape"] or len(g["shape"]) == 1 else "thick",
+            "dtype-" + (case["mass"].get("dtype") or "float64") if not case["mass"].get("amp_exp") else "dtype-float64",
+            "no-iteration" if o["num_iter"] == 0 else "iterated") + tuple(extra)
 
 
 def _nontrivial(case, info):
@@ -221,6 +231,13 @@ def check_aux_outputs(case):
     want = darsia.face_to_cell(g, u)
     if flux.shape != (*shape, len(shape)) or not np.array_equal(flux, want):
         raise Violation("aux-flux", "info['flux'] is not the cell reconstruction of the returned face flux", tags)
+    # ... and that reconstruction is the cell-centre value of the lowest-order Raviart-Thomas field: per
+    # axis the mean of the fluxes through the two opposite faces (harness's own face bookkeeping)
+    own = wass.ref_cell_flux(ref, u)
+    if not np.allclose(flux, own, rtol=1e-13, atol=1e-13 * np.abs(u).max()):
+        k = np.unravel_index(int(np.argmax(np.abs(flux - own))), flux.shape)
+        raise Violation("aux-flux-centre", f"info['flux']{list(k)} = {flux[k]!r}, mean of the opposite face fluxes "
+                        f"is {own[k]!r}", tags)
     # cell reconstruction at the centre = mean of the two opposite face values (independent)
     _, dens_ref = wass.ref_cost(ref, u, case["opt"]["l1_mode"],
                                 None if wimg is None else np.asarray(wimg.img, float))
@@ -237,6 +254,14 @@ def check_aux_outputs(case):
     if abs(p[pin]) > 1e-8 * max(1.0, np.abs(p).max()):
         raise Violation("aux-pressure-pin", f"pressure at the reference cell is {p[pin]!r} "
                         f"(max |p| = {np.abs(p).max():.3e})", tags)
+    # the pressure belongs to this flux: with the flux equation W M u = D^T p (+ pinned cell, p_c = 0) of
+    # the last linear solve, sum_cells p * vol * (m2 - m1) = u^T W M u > 0 for every non-zero transport
+    f = ref.vol * (b - a).ravel("F")
+    if np.any(f != 0) and np.any(u != 0) and not tags.get("degenerate_mobility") and case["opt"]["num_iter"] > 0:
+        pf = float(p @ f)
+        if not pf > 0:
+            raise Violation("aux-pressure-sign", f"sum p * vol * (m2 - m1) = {pf!r} is not positive: the reported "
+                            f"pressure is not the potential of the reported flux ({case['opt']['method']})", tags)
     wf = np.asarray(info["weighted_flux"])
     wantw = want if wimg is None else want * np.asarray(wimg.img, float)[..., None]
     if not np.allclose(wf, wantw, rtol=1e-14, atol=0):
@@ -283,7 +308,50 @@ def check_status_honest(case):
         raise Violation("nonfinite-converged", "non-finite flux reported as converged", tags)
     if conv and its >= o["num_iter"] and o["num_iter"] < 3:
         raise Violation("converged-too-early", f"converged with num_iter={o['num_iter']}", tags)
-    # return_status form reports the same flag
+    # the recorded history is the history of the run: the distance increments are the differences of the
+    # recorded distances (the stopping test reads them), and a run that was not stopped by a failure
+    # returns its last recorded distance
+    dist = np.asarray(hist["distance"], dtype=float)
+    inc = np.asarray(hist["distance_increment"], dtype=float)
+    if len(dist) >= 2 and len(inc) == len(dist) and np.all(np.isfinite(dist)):
+        want = np.abs(np.diff(dist))
+        bad = np.abs(inc[1:] - want) > 1e-12 * np.abs(dist).max()
+        if np.any(bad):
+            k = int(np.flatnonzero(bad)[0]) + 1
+            raise Violation("history-distance-increment", f"iteration {k}: recorded distance increment {inc[k]!r}, "
+                            f"recorded distances differ by {want[k - 1]!r} ({o['method']})", tags)
+    if len(dist) and np.isfinite(d) and np.isfinite(dist[-1]) and abs(float(d) - dist[-1]) > 1e-12 * abs(float(d)):
+        raise Violation("history-last-distance", f"returned distance {float(d)!r}, last recorded distance "
+                        f"{dist[-1]!r}", tags)
+    # the other two documented call forms of the same object report the same distance and flag
+    nondet = o["formulation"] == "flux_reduced" and o["linear_solver"] in ("amg", "cg")  # open finding
+    if np.isfinite(d) and not nondet:
+        i1, i2 = cap["images"]
+        rt = 0.0 if o["linear_solver"] == "direct" else 1e-9
+        with warnings.catch_warnings():
+            warnings.simplefilter("ignore")
+            try:
+                w1.options["return_info"] = False
+                w1.options["return_status"] = True
+                np.random.seed(12345)
+                pair = w1(i1, i2)
+                w1.options["return_status"] = False
+                np.random.seed(12345)
+                plain = w1(i1, i2)
+            except Exception as e:  # noqa
+                e.vf_tags = tags
+                raise
+        if not (isinstance(pair, tuple) and len(pair) == 2):
+            raise Violation("return-status-form", f"return_status=True returned {type(pair).__name__}", tags)
+        if isinstance(plain, tuple):
+            raise Violation("return-plain-form", "the plain call form returned a tuple", tags)
+        if bool(pair[1]) != conv:
+            raise Violation("return-status-flag", f"return_status form reports converged={bool(pair[1])}, the info "
+                            f"form of the same computation {conv}", tags)
+        for name, val in (("return_status", pair[0]), ("plain", plain)):
+            if abs(float(val) - float(d)) > rt * abs(float(d)):
+                raise Violation("return-form-distance", f"{name} form returns {float(val)!r}, info form {float(d)!r}",
+                                tags)
     return Outcome(_nontrivial(case, info), _key(case),
                    _labels(case, ("converged" if conv else "not-converged",
                                   "tol-split" if o.get("tols") else "tol-binding" if o.get("tol") else "tol-default")))
@@ -292,10 +360,18 @@ def check_status_honest(case):
 def check_fault_flagged(case):
     point = case.get("fault_point", "linear_solve")
     exc = case.get("fault_exc", "runtime")
-    out, tags, a, b, g, wimg, ref = _run(case, fault_at=case["fault_at"], fault_point=point, fault_exc=exc)
+    sticky = bool(case.get("fault_sticky"))
+    out, tags, a, b, g, wimg, ref = _run(case, fault_at=case["fault_at"], fault_point=point, fault_exc=exc,
+                                         sticky=sticky)
     tags = dict(tags, fault_at=int(case["fault_at"]), first_iteration=case["fault_at"] == 1, fault_point=point,
-                fault_exc=exc)
+                fault_exc=exc, sticky=sticky)
     if out[0] == "escaped":
+        if point == "linear_solve":
+            # every linear solve after the initial one (call 0, never targeted) is an inner step of the
+            # iteration or the closing pressure reconstruction: its failure must be flagged, not raised
+            raise Violation(f"fault-escaped:{exc}", f"a {out[1]} raised by linear solve {case['fault_at']} "
+                            f"({'persistent' if sticky else 'one-shot'}; {case['opt']['method']}, "
+                            f"{case['opt']['num_iter']} iterations) left the call instead of being flagged", tags)
         if exc == "runtime":
             # reference behaviour for this very call: the plain RuntimeError variant is swallowed iff the
             # step lies inside the iteration; if so, any other Exception must be swallowed as well
@@ -341,7 +417,8 @@ def check_fault_flagged(case):
     if point == "linear_solve" and its != case["fault_at"] - 1:
         raise Violation("fault-history", f"{its} iterations recorded, failure was injected in iteration "
                         f"{case['fault_at'] - 1}", tags)
-    return Outcome(True, _key(case) + [point, exc], _labels(case, (f"fault-{which}", f"exc-{exc}")))
+    return Outcome(True, _key(case) + [point, exc, sticky],
+                   _labels(case, (f"fault-{which}", f"exc-{exc}", "fault-persistent" if sticky else "fault-one-shot")))
 
 
 def enum_combos(tier):
@@ -353,10 +430,11 @@ def enum_combos(tier):
             for mob in wass.MOBILITY_MODES:
                 for form, solver in (("full", "direct"), ("flux_reduced", "direct"), ("pressure", "direct"),
                                      ("pressure", "amg"), ("flux_reduced", "cg")):
-                    for shape, vox in (([3, 4], [0.5, 0.25]), ([6], [0.3]), ([2, 3, 2], [1.0, 0.5, 2.0])):
-                        k += 1
-                        if tier == "quick" and (k % 3) != (len(shape) % 3):
-                            continue
+                    k += 1
+                    for si, (shape, vox) in enumerate((([3, 4], [0.5, 0.25]), ([6], [0.3]),
+                                                       ([2, 3, 2], [1.0, 0.5, 2.0]))):
+                        if tier == "quick" and si != k % 3:
+                            continue  # quick tier: the three grids take turns over the combinations
                         out.append({
                             "grid": {"shape": shape, "vox": vox, "vk": "mixed"},
                             "mass": {"kind": "dense", "pseed": k},
